@@ -608,7 +608,9 @@ func (x *Exec) applyCallee(st *State, ins ssa.Instruction, c *ssa.CallCommon, ar
 		} else {
 			// neutral: only cells/objects directly pointed to by pointer arguments; memory of slice
 			// arguments is NOT modified (read-like externs must say `modifies mem(buf)`)
-			x.havocPointeesOnly(st, c, args)
+			if !ctr.ReadOnly {
+				x.havocPointeesOnly(st, c, args)
+			}
 		}
 		res = x.freshValue(st, "ret_"+shortCallee(names[0]), rt)
 		if ctr.Sticky && len(res.L) == 1 {
